@@ -24,6 +24,7 @@ EXPLANATION = (
     "That _implied_need equals the least fixed point of the need definition for every graph, and that the executed "
     "set equals the needed set, is NOT decided; the MAX algebra of the SQL formula is deliberately not matched. "
     'Also: statements that flag steps for recomputation are not narrowed (single-conjunct stale-TARGET reset; recursive subtree CTEs without a detached filter; the edge-delete trigger flags suppliers); targets are normalised before the process changes directory; targets are reconciled after the startup rescans on a resumed database.'
+    ' R-C11-6 a step becomes RUNNING only in a transaction that first removes what its previous run created; no raw statement writes RUNNING.'
 )
 ASSUMPTIONS = ["cached columns are recomputed when their inputs change (C10)", "the need definition's algebra is correct (not decided)"]
 
